@@ -256,7 +256,12 @@ func (qr *queryRequest) reply(payload []byte) {
 	qr.replied = true
 
 	qr.s.tracef("<=Q %s: %s", qr.rname, payload)
-	err := qr.s.nc.Publish(qr.msg.Reply, payload)
+	nc := qr.s.conn()
+	if nc == nil {
+		qr.s.errorf("Error sending query reply %s: %s", qr.rname, errNotStarted)
+		return
+	}
+	err := nc.Publish(qr.msg.Reply, payload)
 	if err != nil {
 		qr.s.errorf("Error sending query reply %s: %s", qr.rname, err)
 	}
